@@ -522,6 +522,9 @@ PROPS["C20"] = {
         leg("arena1-late", "c20_suspend", (2, 3), {"kind": "arena1", "late": 1}, what="arena of one slot, the resumer waits until the suspending thread has gone to sleep (late resume must still wake it)"),
         leg("foreign-late", "c20_suspend", (1, 2), {"kind": "foreign", "late": 1}, what="late resume with main and worker asleep", weight=2.0),
         leg("nested-late", "c20_suspend", (1, 2), {"kind": "nested", "late": 1}, what="two suspended tasks, late resume in reverse order", weight=2.0),
+        leg("iso_wait-late", "c20_suspend", (2, 3), {"kind": "iso_wait", "late": 1}, what="one-slot arena: the only thread waits inside an isolated region for a group whose task is suspended; a foreign thread resumes late: the isolated waiter must pick up the resume request"),
+        leg("iso_wait", "c20_suspend", (2, 3), {"kind": "iso_wait"}, what="same, resume races the suspension"),
+        leg("iso_then_plain", "c20_suspend", (1, 2), {"kind": "iso_then_plain"}, what="one thread: a suspension inside an isolated region creates the coroutine the arena caches; later plain suspensions reuse it and need the suspended thread to run a freshly spawned task (which calls resume) itself"),
         leg("critical-late", "c20_suspend", (2, 3), {"kind": "critical", "late": 1}, what="suspension inside a critical task (flow-graph node with a priority) in a one-slot arena; the foreign thread resumes when the arena's only thread sleeps (resume task in the critical stream)"),
         leg("critical", "c20_suspend", (2, 3), {"kind": "critical"}, what="same, resume races the suspension"),
         leg("recall", "c20_suspend", (0, 1), {"kind": "recall"}, what="owner recall: the worker continues the main thread's outermost stack after a resume, the coroutine cache is emptied by a third suspension, the wait completes on the worker: it must leave through a fresh coroutine and still recall the owner", weight=3.0),
@@ -677,6 +680,8 @@ def _c07():
     ]
     rt = [("ipo", {}, (2, 3)), ("pio", {}, (2, 3)), ("ipi", {}, (2, 3)), ("oo", {}, (2, 3)), ("p", {}, (2, 3)), ("pp", {}, (2, 3)), ("ipi", {"big": 1}, (2, 3)), ("ipo", {"asleep": 1}, (2, 3)),
           ("ipo", {"tokens": 1}, (2, 3)), ("ipi", {"tokens": 3, "items": 4}, (2, 2)), ("iio", {"tokens": 3, "items": 4}, (2, 2)), ("ipi", {"P": 3}, (1, 2))]
+    for mk in (0, 4, 64):
+        L.append(leg("rt-objects-m%d" % mk, "c03_rt", (1, 2), {"kind": "pipeline_obj", "mask": mk}, flags=("-fp",), what="real scheduler: items that travel in library-allocated tokens pass every filter and are destroyed exactly once, also when the %s" % ("pipeline completes" if mk == 0 else "filter invocation(s) of mask %d throw" % mk)))
     for m, extra, b in rt:
         prm = {"modes": m}; prm.update(extra)
         name = "rt-" + m + "".join("-%s%s" % (k, v) for k, v in extra.items())
